@@ -9,5 +9,5 @@ _orm.define(globals(), "C39", ("C39",), "cascades",
             "save-update closure must be in the session (and nothing unreachable), after flush no delete-orphan child without parent may have a "
             "row, removed-and-not-reassociated orphans must be gone, expunge/expire reach the configured closure.  Sampled.",
             "closures are computed from loaded attribute values only; merge cascade is judged by C45",
-            weights={"bs_remove": 4, "bs_replace": 2, "h_doc": 3, "q_ops": 5, "delete": 3, "expunge": 2, "expire": 2, "set_parent": 4},
+            weights={"bs_remove": 4, "bs_replace": 2, "h_doc": 3, "q_ops": 5, "delete": 3, "expunge": 2, "expire": 2, "set_parent": 4, "expunge_owner": 2},
             shape=_orm.mixed((0.3, _orm.sp_orphan_blocks), (1, lambda rng, pool, cfg=None: None)))
